@@ -1655,6 +1655,15 @@ namespace jsoncons {
             {
                 return 0;
             }
+            // half-precision values are compared through their double value
+            if (storage_kind() == json_storage_kind::half_float)
+            {
+                return basic_json(binary::decode_half(cast<half_storage>().value()), semantic_tag::none).compare(rhs);
+            }
+            if (rhs.storage_kind() == json_storage_kind::half_float)
+            {
+                return compare(basic_json(binary::decode_half(rhs.cast<half_storage>().value()), semantic_tag::none));
+            }
             switch (storage_kind())
             {
                 case json_storage_kind::const_json_ref:
